@@ -1,12 +1,18 @@
 lib/BoolLaws.vo lib/BoolLaws.glob lib/BoolLaws.v.beautified lib/BoolLaws.required_vo: lib/BoolLaws.v lib/Lib.vo lib/RLib.vo
 lib/BoolLaws.vio: lib/BoolLaws.v lib/Lib.vio lib/RLib.vio
 lib/BoolLaws.vos lib/BoolLaws.vok lib/BoolLaws.required_vos: lib/BoolLaws.v lib/Lib.vos lib/RLib.vos
+lib/Conv.vo lib/Conv.glob lib/Conv.v.beautified lib/Conv.required_vo: lib/Conv.v lib/Lib.vo lib/RLib.vo lib/Trig.vo
+lib/Conv.vio: lib/Conv.v lib/Lib.vio lib/RLib.vio lib/Trig.vio
+lib/Conv.vos lib/Conv.vok lib/Conv.required_vos: lib/Conv.v lib/Lib.vos lib/RLib.vos lib/Trig.vos
 lib/Lib.vo lib/Lib.glob lib/Lib.v.beautified lib/Lib.required_vo: lib/Lib.v 
 lib/Lib.vio: lib/Lib.v 
 lib/Lib.vos lib/Lib.vok lib/Lib.required_vos: lib/Lib.v 
 lib/RLib.vo lib/RLib.glob lib/RLib.v.beautified lib/RLib.required_vo: lib/RLib.v lib/Lib.vo
 lib/RLib.vio: lib/RLib.v lib/Lib.vio
 lib/RLib.vos lib/RLib.vok lib/RLib.required_vos: lib/RLib.v lib/Lib.vos
+lib/Spec.vo lib/Spec.glob lib/Spec.v.beautified lib/Spec.required_vo: lib/Spec.v lib/Lib.vo lib/RLib.vo
+lib/Spec.vio: lib/Spec.v lib/Lib.vio lib/RLib.vio
+lib/Spec.vos lib/Spec.vok lib/Spec.required_vos: lib/Spec.v lib/Lib.vos lib/RLib.vos
 lib/Trig.vo lib/Trig.glob lib/Trig.v.beautified lib/Trig.required_vo: lib/Trig.v lib/Lib.vo lib/RLib.vo
 lib/Trig.vio: lib/Trig.v lib/Lib.vio lib/RLib.vio
 lib/Trig.vos lib/Trig.vok lib/Trig.required_vos: lib/Trig.v lib/Lib.vos lib/RLib.vos
@@ -40,6 +46,12 @@ proofs/C13_range.vos proofs/C13_range.vok proofs/C13_range.required_vos: proofs/
 proofs/C13_sign.vo proofs/C13_sign.glob proofs/C13_sign.v.beautified proofs/C13_sign.required_vo: proofs/C13_sign.v lib/Lib.vo lib/RLib.vo lib/Trig.vo gen/Compute.vo gen/Tables.vo gen/Unfold.vo proofs/C13_range.vo
 proofs/C13_sign.vio: proofs/C13_sign.v lib/Lib.vio lib/RLib.vio lib/Trig.vio gen/Compute.vio gen/Tables.vio gen/Unfold.vio proofs/C13_range.vio
 proofs/C13_sign.vos proofs/C13_sign.vok proofs/C13_sign.required_vos: proofs/C13_sign.v lib/Lib.vos lib/RLib.vos lib/Trig.vos gen/Compute.vos gen/Tables.vos gen/Unfold.vos proofs/C13_range.vos
+proofs/Spec_planar.vo proofs/Spec_planar.glob proofs/Spec_planar.v.beautified proofs/Spec_planar.required_vo: proofs/Spec_planar.v lib/Lib.vo lib/RLib.vo lib/Trig.vo lib/Spec.vo gen/Compute.vo gen/Tables.vo gen/Unfold.vo
+proofs/Spec_planar.vio: proofs/Spec_planar.v lib/Lib.vio lib/RLib.vio lib/Trig.vio lib/Spec.vio gen/Compute.vio gen/Tables.vio gen/Unfold.vio
+proofs/Spec_planar.vos proofs/Spec_planar.vok proofs/Spec_planar.required_vos: proofs/Spec_planar.v lib/Lib.vos lib/RLib.vos lib/Trig.vos lib/Spec.vos gen/Compute.vos gen/Tables.vos gen/Unfold.vos
+proofs/Spec_spatial1.vo proofs/Spec_spatial1.glob proofs/Spec_spatial1.v.beautified proofs/Spec_spatial1.required_vo: proofs/Spec_spatial1.v lib/Lib.vo lib/RLib.vo lib/Trig.vo lib/Conv.vo lib/Spec.vo gen/Compute.vo gen/Tables.vo gen/Unfold.vo proofs/Spec_planar.vo
+proofs/Spec_spatial1.vio: proofs/Spec_spatial1.v lib/Lib.vio lib/RLib.vio lib/Trig.vio lib/Conv.vio lib/Spec.vio gen/Compute.vio gen/Tables.vio gen/Unfold.vio proofs/Spec_planar.vio
+proofs/Spec_spatial1.vos proofs/Spec_spatial1.vok proofs/Spec_spatial1.required_vos: proofs/Spec_spatial1.v lib/Lib.vos lib/RLib.vos lib/Trig.vos lib/Conv.vos lib/Spec.vos gen/Compute.vos gen/Tables.vos gen/Unfold.vos proofs/Spec_planar.vos
 props/C12.vo props/C12.glob props/C12.v.beautified props/C12.required_vo: props/C12.v lib/Lib.vo lib/RLib.vo lib/BoolLaws.vo gen/Compute.vo gen/Tables.vo proofs/C12_eq.vo proofs/C12_ne.vo proofs/C12_close.vo
 props/C12.vio: props/C12.v lib/Lib.vio lib/RLib.vio lib/BoolLaws.vio gen/Compute.vio gen/Tables.vio proofs/C12_eq.vio proofs/C12_ne.vio proofs/C12_close.vio
 props/C12.vos props/C12.vok props/C12.required_vos: props/C12.v lib/Lib.vos lib/RLib.vos lib/BoolLaws.vos gen/Compute.vos gen/Tables.vos proofs/C12_eq.vos proofs/C12_ne.vos proofs/C12_close.vos
